@@ -16,6 +16,7 @@
 //!       {"do":"poison","l":"a","after_ms":n}        a connection whose service call panics (worker thread dies); the step
 //!                                                   returns n ms after the call started to panic
 //!   "slow_drop_ms": the destructor of listener a's service instances takes that long
+//!       {"do":"stress","threads":n,"each":m}       n client threads x m short connections on listener a
 //!       {"do":"stop","graceful":bool}
 
 use std::{
@@ -40,6 +41,8 @@ use vcore::{json, Value};
 use crate::e2e::Log;
 
 const POISON: u8 = 255;
+/// stress connections: served and finished at once, not logged
+const QUICK: u8 = 254;
 
 enum Client {
     Tcp(#[allow(dead_code)] StdTcpStream),
@@ -64,6 +67,8 @@ struct Shared {
     factories: AtomicUsize,
     /// the next service call on listener a panics synchronously inside `Service::call` (kills the worker future)
     poison_next: AtomicBool,
+    /// stress connections served
+    quick: AtomicUsize,
 }
 
 /// captured by a service instance: its destructor takes `ms` milliseconds (a service that has something to tear down)
@@ -93,6 +98,10 @@ async fn serve<S: AsyncReadExt + Unpin>(mut stream: S, tag: &'static str, sh: Ar
     if c == POISON {
         return Ok(());
     }
+    if c == QUICK {
+        sh.quick.fetch_add(1, Ordering::SeqCst);
+        return Ok(());
+    }
     sh.log.emit(json!({"e": "ConnStarted", "c": c, "tag": tag, "thread": th}));
     while !(sh.release_all.load(Ordering::SeqCst) || sh.release[c as usize].load(Ordering::SeqCst)) {
         tokio::time::sleep(Duration::from_millis(3)).await;
@@ -114,6 +123,7 @@ pub fn run_scenario(sc: &Value, dir: &str) -> Vec<Value> {
         release_all: AtomicBool::new(false),
         factories: AtomicUsize::new(0),
         poison_next: AtomicBool::new(false),
+        quick: AtomicUsize::new(0),
     });
     let uds_path = format!("{dir}/{}.sock", sc["name"].as_str().unwrap_or("x"));
     let _ = std::fs::remove_file(&uds_path);
@@ -253,6 +263,38 @@ pub fn run_scenario(sc: &Value, dir: &str) -> Vec<Value> {
                 res["ids"] = json!(ids);
                 res["ok"] = json!(errs.is_empty());
             }
+            "stress" => {
+                // `threads` client threads, each opening `each` short connections to listener a one after another (the
+                // service finishes them at once): completions and dispatches race on the real threads; afterwards every
+                // one of them must have been served
+                let threads = st["threads"].as_u64().unwrap_or(8) as usize;
+                let each = st["each"].as_u64().unwrap_or(200) as usize;
+                let before = sh.quick.load(Ordering::SeqCst);
+                let hs: Vec<_> = (0..threads)
+                    .map(|_| {
+                        thread::spawn(move || {
+                            let mut sent = 0usize;
+                            for _ in 0..each {
+                                if let Ok(mut s) = StdTcpStream::connect_timeout(&addr_a, Duration::from_secs(3)) {
+                                    if s.write_all(&[QUICK]).is_ok() {
+                                        sent += 1;
+                                    }
+                                    // wait for the server to close (the service is done): keeps the number of open sockets small
+                                    let _ = s.set_read_timeout(Some(Duration::from_millis(2000)));
+                                    let mut b = [0u8; 1];
+                                    let _ = std::io::Read::read(&mut s, &mut b);
+                                }
+                            }
+                            sent
+                        })
+                    })
+                    .collect();
+                let sent: usize = hs.into_iter().map(|h| h.join().unwrap_or(0)).sum();
+                let ok = wait_until(Duration::from_secs(5), || sh.quick.load(Ordering::SeqCst) >= before + sent);
+                res["sent"] = json!(sent);
+                res["served"] = json!(sh.quick.load(Ordering::SeqCst) - before);
+                res["ok"] = json!(ok);
+            }
             "await_started" => {
                 let n = st["count"].as_u64().unwrap_or(0) as usize;
                 let ok = wait_until(Duration::from_millis(st["ms"].as_u64().unwrap_or(3000)), || count(&log, "ConnStarted") >= n);
@@ -275,6 +317,7 @@ pub fn run_scenario(sc: &Value, dir: &str) -> Vec<Value> {
                 }
             }
             "release_all" => sh.release_all.store(true, Ordering::SeqCst),
+            "unrelease_all" => sh.release_all.store(false, Ordering::SeqCst),
             "pause" => rt.block_on(handle.pause()),
             "resume" => rt.block_on(handle.resume()),
             "sleep" => thread::sleep(Duration::from_millis(st["ms"].as_u64().unwrap_or(100))),
